@@ -237,7 +237,10 @@ Definition spec_star_domain (c : call) : bool :=
   && match c_kwargs c with [] => true | _ => false end
   && forallb (fun sp => negb (sp_kwonly sp)) (s_params sg) && negb (in_sig self_name)
   && decl_wellformed
-  && names_eqb (map (@p_name value) (d_params dc)) (positional_names ++ map (@p_name value) star_params).
+  && names_eqb (map (@p_name value) (d_params dc)) (positional_names ++ map (@p_name value) star_params)
+  && Nat.leb (List.length positional_names) (List.length (c_args c))          (* every named parameter is passed *)
+  && negb (is_declared self_name)
+  && forallb (fun p => Nat.ltb (p_name p) 1000) (d_params dc).                 (* names below the keys of passed-through positionals *)
 
 Inductive demanded_star :=
 | DSRaise (allowed : list (exn * option name))
